@@ -798,8 +798,8 @@ fn main() {
                     json!({"ended": format!("{ended:?}"), "last": out.lines().rev().find(|l| l.starts_with("START ")).unwrap_or("")}),
                 );
             }
-            let n: u64 = if thorough { 20_000 } else { 300 };
-            let nfrag: u64 = if thorough { 6_000 } else { 150 };
+            let n: u64 = if thorough { 20_000 } else { 1_000 };
+            let nfrag: u64 = if thorough { 6_000 } else { 300 };
             // like `worker::run_batches`, with a budget of crashes/hangs: a compiler that
             // miscompiles loops makes many programs hang, and one replay is enough
             let mut crashes = 0u32;
